@@ -315,9 +315,6 @@ func (w *printer) text(t *TextVal) {
 		if i == 0 {
 			w.mark(t.ID, "str", idx)
 		}
-		if i < len(t.Parts)-1 {
-			w.out[idx].NoComment = true
-		}
 	}
 	if t.Format != nil {
 		w.toks(t.Format.Params...)
